@@ -108,6 +108,7 @@ Proof.
   destruct (negb (compatible (cver s) v)); [inv H; apply oa_same; reflexivity|].
   destruct (dup_addr s (p_id p) (p_addr p)); [inv H; apply oa_same; reflexivity|].
   destruct (sv s (p_id p)) as [old|] eqn:Eold;
+    (match type of H with context [labels_rejected ?a ?b] => destruct (labels_rejected a b) end; [inv H; apply oa_same; reflexivity|]);
     match type of H with context [put_locked ?a ?b ?c ?d ?e] => destruct (put_locked a b c d e) as [s1 ok] eqn:Epl end;
     inv H; (eapply put_locked_outcome; [exact Epl|reflexivity|]); intros ->; reflexivity.
 Qed.
@@ -321,11 +322,12 @@ Qed.
 (* ---------- every command, every id ---------- *)
 Theorem run_cmd_outcome s o s' r : run_cmd s o = (s', r) -> forall j, outcome s o s' r j.
 Proof.
-  destruct o as [g p f|id ls force f|id pd f|id f|id f|corder f|id lw rw f|order f|id f|rg stores]; cbn [run_cmd]; intros H.
+  destruct o as [g p f|id ls force f|id pd f|id f|id f|corder f|id lw rw f|order f|id f|rg stores|e]; cbn [run_cmd]; intros H.
   - destruct g.
-    + destruct (sv s (p_id p)) as [x|] eqn:E.
-      * destruct (is_tomb x); [inv H; intros j; apply oa_same; reflexivity|]. eapply do_put_outcome; eauto.
-      * eapply do_put_outcome; eauto.
+    + cbv zeta in H. destruct (sv s (p_id p)) as [x|] eqn:E.
+      * destruct (is_tomb x); [inv H; intros j; apply oa_same; reflexivity|].
+        destruct (negb (e_pr (cenv s)) && is_tiflash (p_labels p))%bool; [inv H; intros j; apply oa_same; reflexivity|]. eapply do_put_outcome; eauto.
+      * destruct (negb (e_pr (cenv s)) && is_tiflash (p_labels p))%bool; [inv H; intros j; apply oa_same; reflexivity|]. eapply do_put_outcome; eauto.
     + eapply do_put_outcome; eauto.
   - eapply do_labels_outcome; eauto.
   - eapply do_remove_outcome; eauto.
@@ -336,6 +338,7 @@ Proof.
   - eapply do_clean_outcome; eauto.
   - eapply do_heartbeat_outcome; eauto.
   - inv H. intros j. apply oa_same. apply do_region_sproj.
+  - inv H. intros j. apply oa_same. reflexivity.
 Qed.
 
 (* ---------- the weight keys: an invariant of every history ---------- *)
@@ -391,9 +394,11 @@ Proof.
   destruct (negb (compatible (cver s) v)); [inv H; exact I|].
   destruct (dup_addr s (p_id p) (p_addr p)); [inv H; exact I|].
   destruct (sv s (p_id p)) as [old|] eqn:Eold.
-  - match type of H with context [put_locked ?a ?b ?c ?d ?e] => destruct (put_locked a b c d e) as [s1 ok] eqn:Epl end.
+  - match type of H with context [labels_rejected ?a ?b] => destruct (labels_rejected a b) end; [inv H; exact I|].
+    match type of H with context [put_locked ?a ?b ?c ?d ?e] => destruct (put_locked a b c d e) as [s1 ok] eqn:Epl end.
     inv H. eapply Winv_wf; [exact I|]. eapply put_locked_wf; [exact Epl|exact Eold|reflexivity|reflexivity].
   - (* a new store: it is served with weights 1/1, and there are no weight keys for an id that is not served *)
+    match type of H with context [labels_rejected ?a ?b] => destruct (labels_rejected a b) end; [inv H; exact I|].
     match type of H with context [put_locked ?a ?b ?c ?d ?e] => destruct (put_locked a b c d e) as [s1 ok] eqn:Epl end.
     inv H. destruct (put_locked_full _ _ _ _ _ _ _ Epl) as (A&_&_&D&F).
     pose proof (I (p_id p)) as Ip. unfold wagree in Ip. rewrite Eold in Ip. destruct Ip as [Z1 Z2].
@@ -486,12 +491,13 @@ Qed.
 
 Theorem winv_step s o s' r : Winv s -> run_cmd s o = (s', r) -> Winv s'.
 Proof.
-  destruct o as [g p f|id ls force f|id pd f|id f|id f|corder f|id lw rw f|order f|id f|rg stores]; cbn [run_cmd]; intros I H.
+  destruct o as [g p f|id ls force f|id pd f|id f|id f|corder f|id lw rw f|order f|id f|rg stores|e]; cbn [run_cmd]; intros I H.
   - assert (P : forall s1 r1, do_put s p f = (s1, r1) -> Winv s1).
     { unfold do_put. destruct (put_impl s p false f) as [s1 r1] eqn:E. intros s2 r2 H2.
       pose proof (put_impl_winv _ _ _ _ _ _ E I) as I1.
       destruct r1; inv H2; try exact I1. eapply Winv_same_store; [apply same_store_version_change|exact I1]. }
-    destruct g; [destruct (sv s (p_id p)) as [x|]; [destruct (is_tomb x); [inv H; exact I|]|]|]; eapply P; eauto.
+    destruct g; [cbv zeta in H; destruct (sv s (p_id p)) as [x|]; [destruct (is_tomb x); [inv H; exact I|]|];
+                 (destruct (negb (e_pr (cenv s)) && is_tiflash (p_labels p))%bool; [inv H; exact I|])|]; eapply P; eauto.
   - unfold do_labels in H. destruct (sv s id) as [x|] eqn:E; [|inv H; exact I].
     eapply put_impl_winv; eauto.
   - unfold do_remove in H. destruct (sv s id) as [x|] eqn:E; [|inv H; exact I].
@@ -538,6 +544,7 @@ Proof.
     { induction l as [|i l IH]; intros a Ha; cbn [fold_left]; [exact Ha|]. apply IH.
       eapply wf_rel_trans; [exact Ha|apply refresh_rcf_wf]. }
     apply G. apply wf_rel_same_store. repeat split.
+  - inv H. exact I.
 Qed.
 
 (* ---------- histories ---------- *)
@@ -621,3 +628,74 @@ Lemma regression_failed_put_keeps_labels :
   run_cmd (boot (0, 0, 0) boot1) (OPut false (Payload 1 "a1" Up false [("zone", "z2"); ("host", "")] (Some (4, 0, 0))) (Fault 1 0 FBefore))
   = (boot (0, 0, 0) boot1, RStorage).
 Proof. vm_compute. reflexivity. Qed.
+
+(* ====================================================================================================
+   Several failing writes in one operation (model/C14_Store.v, layer do_weight_m / delete_store_m)
+   ==================================================================================================== *)
+Lemma served_restore_m s id a b mf n : served (fst (restore_m s id a b mf n)) = served s.
+Proof. unfold restore_m. cbn [fst]. destruct (fst (wrm mf n)), (fst (wrm mf (S n))); reflexivity. Qed.
+Lemma served_save_weight_m s id lw rw mf n : served (fst (fst (save_weight_m s id lw rw mf n))) = served s.
+Proof.
+  unfold save_weight_m. destruct (wrm mf n) as [a0 [|]]; cbn [negb].
+  - destruct (wrm mf (S n)) as [a1 [|]]; cbn [negb].
+    + destruct a0, a1; reflexivity.
+    + match goal with |- context [restore_m ?x ?i ?a ?b ?m ?k] => pose proof (served_restore_m x i a b m k) as R; destruct (restore_m x i a b m k) end.
+      cbn [fst] in *. rewrite R. destruct a0, a1; reflexivity.
+  - match goal with |- context [restore_m ?x ?i ?a ?b ?m ?k] => pose proof (served_restore_m x i a b m k) as R; destruct (restore_m x i a b m k) end.
+    cbn [fst] in *. rewrite R. destruct a0; reflexivity.
+Qed.
+
+(* ANY set of failing writes, restoring writes included: an operation that reports an error leaves what is served exactly as it was *)
+Opaque restore_m save_weight_m.
+Theorem multi_failed_keeps_served_pf s o mf s' r : run_mop s o mf = (s', r) -> r <> ROk -> served s' = served s.
+Proof.
+  destruct o as [id lw rw|id]; cbn [run_mop]; intros H Hr.
+  - unfold do_weight_m in H. destruct (sv s id) as [x|]; [|inv H; reflexivity].
+    pose proof (served_save_weight_m s id lw rw mf 0) as S1.
+    destruct (save_weight_m s id lw rw mf 0) as [[s1 ok] n1]. cbn [fst] in S1. destruct ok; cbn [negb] in H; [|inv H; exact S1].
+    destruct (wrm mf n1) as [a2 [|]]; [inv H; congruence|]. inv H.
+    rewrite served_save_weight_m. destruct a2; exact S1.
+  - unfold do_clean_one_m in H. destruct (delete_store_m s id mf) as [s1 ok] eqn:E.
+    assert (S1 : ok = false -> served s1 = served s).
+    { unfold delete_store_m in E.
+      destruct (wrm mf 0) as [a0 [|]]; cbn [negb] in E.
+      2:{ inv E. intros _. rewrite served_restore_m. destruct a0; reflexivity. }
+      destruct (wrm mf 1) as [a1 [|]]; cbn [negb] in E.
+      2:{ inv E. intros _. rewrite served_restore_m. destruct a0, a1; reflexivity. }
+      destruct (wrm mf 2) as [a2 [|]]; cbn [negb] in E; [inv E; discriminate|].
+      inv E. intros _. rewrite served_restore_m. destruct a0, a1, a2; reflexivity. }
+    destruct ok; inv H; [congruence|]. apply S1; reflexivity.
+Qed.
+Transparent restore_m save_weight_m.
+
+(* with at most one failing write the layer is the single-fault model: its theorems (stored = served after a failed operation too) carry over *)
+Lemma wr_self id i k j : wr (Fault id i k) id j = wrm [(i, k)] j.
+Proof. unfold wr, wrm. rewrite Z.eqb_refl. cbn [andb]. destruct (Nat.eqb i j); [destruct k|]; reflexivity. Qed.
+Lemma state_eta s : State (served s) (st_meta s) (st_lw s) (st_rw s) (regions s) (cver s) (cenv s) = s.
+Proof. destruct s; reflexivity. Qed.
+
+Theorem weight_single_fault_pf s id lw rw i k : do_weight_m s id lw rw [(i, k)] = do_weight s id lw rw (Fault id i k).
+Proof.
+  unfold do_weight_m, do_weight. destruct (sv s id) as [x|]; [|reflexivity].
+  unfold save_weight_m, restore_m, put_locked. rewrite !wr_self.
+  destruct i as [|[|[|i]]]; destruct k; cbn; reflexivity.
+Qed.
+Theorem weight_no_fault_pf s id lw rw : do_weight_m s id lw rw [] = do_weight s id lw rw NoFault.
+Proof.
+  unfold do_weight_m, do_weight. destruct (sv s id) as [x|]; [|reflexivity]. cbn. reflexivity.
+Qed.
+Theorem delete_single_fault_pf s id i k : delete_store_m s id [(i, k)] = delete_store s id (Fault id i k).
+Proof.
+  unfold delete_store_m, delete_store, restore_m. rewrite !wr_self.
+  destruct i as [|[|[|i]]]; destruct k; cbn; reflexivity.
+Qed.
+
+(* why the hypothesis "the restoring writes succeed" is needed for stored = served after a failed operation: the region-weight
+   write fails, and so does the write that puts the leader weight back: the error is reported, the served weight is still 1,
+   the stored leader weight is 5 *)
+Definition multi_base : state :=
+  State [(2, SStore "a2" Up false [] (4, 0, 0) 1 1 0 false)] [(2, Meta "a2" Up false [] (4, 0, 0))] [] [] [] (4, 0, 0) (Env [] false true).
+Lemma multi_fault_witness :
+  exists s', do_weight_m multi_base 2 5 7 [(1%nat, FBefore); (2%nat, FBefore)] = (s', RStorage) /\
+    served s' = served multi_base /\ aget (st_lw s') 2 = Some 5 /\ sv s' 2 = Some (SStore "a2" Up false [] (4, 0, 0) 1 1 0 false).
+Proof. eexists. vm_compute. repeat split; reflexivity. Qed.
